@@ -24,6 +24,24 @@ PYOP = {k: v[1] for k, v in BINOPS.items()}
 
 def gen_case(g):
     r = g.rng
+    if r.random() < 0.2:
+        # chains of continuous operators over inexact floats: the implementation must apply the operators in the
+        # nesting the expression has (float + and * are not associative); compared exactly with the oracle, with a
+        # tolerance with the (exact-rational) model
+        g.inexact = True
+        g.p_float = 0.7
+        g.p_none = 0.05
+        g.classes = ["add", "sub", "mul"]
+        g.depth = r.choice([2, 2, 3])
+        if r.random() < 0.6:
+            # chains of scalar offsets around one stream: ((p op x) op y) op z, scalars on either side
+            e = g.finite_seq(minlen=2, maxlen=6, repeats=1, allow_none=False)
+            for _ in range(r.randint(2, 3)):
+                op = r.choice(g.classes)
+                x = lit(g.num(allow_none=False))
+                e = node(op, [], [], [e, x] if r.random() < 0.7 else [x, e])
+            return e
+        return pat_impl.REG[r.choice(g.classes)].gen(g)
     kind = r.random()
     if kind < 0.08:
         x = g.stream()
@@ -109,7 +127,7 @@ def oracle(e, impl_tokens, n):
     for i, (x, y) in enumerate(zip(got, exp)):
         if y.startswith("err:") and x.startswith("err:"):
             continue
-        if not pat_impl.tok_equal(x, y):
+        if x != y:        # exact: the oracle applies the very same CPython operator to the very same operand values
             return "output %d is %s, operator applied to operand outputs gives %s" % (i, x, y)
         if y == "stop":
             break
